@@ -1,12 +1,26 @@
-"""C13 -- emu-sv observable kernels equal their definitions (state vectors, density matrices).
+"""C13 -- observable kernels equal their definitions.
 
-Engine B (symtorch), BOUNDED, level "other".  Only the emu-sv kernels; MPS observables
-(QR based), entropy, fidelity and the normalisation in fill_results are not decided here.
+Two parts, one evidence file, level "other" (part of it is bounded):
+  * Engine B (symtorch), BOUNDED: the emu-sv kernels (state vectors, density matrices) as exact
+    polynomial identities -- SPEC below, props/_engineb.py;
+  * Engine A (pyvc, contracts/mps_readers.py), every number of sites / bond dimension: the
+    STRUCTURAL clauses that make the local formulas of the emu-mps readers valid (QR based, outside
+    Engine B): expect_batch, get_correlation_matrix, entanglement_entropy, the emu-mps callbacks,
+    get_extended_site_index.  `build(reg)` returns that plan; its evidence is merged under
+    coverage["engine_a"].  The linear-algebra links (contraction at the centre = expectation, ...) are trusted.
+Fidelity and the normalisation in fill_results are not decided here.
 """
+import json
+import multiprocessing as mp
+import os
+import sys
+import time
+
 from props import _engineb
 
 ID = "C13"
 LEVEL = "other"
+REPLAY = "replay/c13_mps.py"          # native falsifier of the Engine-A (MPS reader) obligations
 
 BOUNDS = ("state-vector kernels: N = 1..3 atoms (thorough: 4), every zero/non-zero phase pattern for N <= 2 "
           "(thorough: N <= 3), 4 patterns above, 2-3 interaction patterns; density-matrix kernels: N = 1..2 "
@@ -67,8 +81,131 @@ SPEC = dict(
 
 
 def build(reg):
-    return {}
+    """the Engine-A part: MPS readers on the factor-list model"""
+    from contracts import mps_readers
+    targets = mps_readers.register_c13(reg, ID)
+    return dict(
+        targets=targets,
+        explanation=(
+            "MPS readers (contracts/mps_readers.py on the FactorList / canonical-form ghost state of C10), for "
+            "every number of sites and all bond dimensions.  Every reported number is an uninterpreted function of "
+            "the SITE(s) it was computed at (expect1(i,k), corr2(i,j), entropy(b)); the code obtains that term only "
+            "through a contraction whose side conditions are proved where it happens: the tensor contracted is the "
+            "centre of a canonical gauge of the same state (the list's factor at the declared centre, or the virtual "
+            "centre expect_batch carries along by QR without writing the list), every factor left of the covered "
+            "interval is left-orthonormal and every one right of it right-orthonormal, environments absorb the "
+            "sites one by one in order.  Proved per function: MPS.expect_batch -- row i of the result is "
+            "expect1(i, .) for all i (both sweeps), list untouched; MPS.get_correlation_matrix -- entry (i,j) is "
+            "corr2(min,max) for all i,j (centre moved to `left` before row `left` is started, transfer through "
+            "left+1..right in order), symmetric; MPS.entanglement_entropy / EntanglementEntropy.apply -- the "
+            "singular values are read from the factor at mps_site while the centre is there, centre back on 0, "
+            "range check exact; qubit_occupation_mps_impl -- entry i = expect1(i,0) with the operator being the "
+            "projector on level 1; correlation_matrix_mps_impl; energy / second moment / variance -- which MPO, "
+            "which state, which combination (MPO.expect and @ uninterpreted); get_extended_site_index -- the centre "
+            "declared for the dark-atom padded state is the position of the old centre's atom in the register "
+            "(well-prepared, with exactly that many well-prepared atoms before it).  On return of every reader "
+            "the declared centre is truthful (Canon), the bonds are consistent, nothing was discarded and the list "
+            "still represents the same state (gauge moves only)."),
+        not_decided=[
+            "the numerical formulas themselves (that contracting op with the centre tensor gives <op>, the transfer "
+            "recursion of the correlation matrix, entropy from the singular values): trusted linear-algebra links, "
+            "checked only natively against dense definitions (replay/c13_mps.py)",
+            "extended_mps_factors / extended_mpo_factors (list building over a symbolic mask): not verified; "
+            "that their inserted |0> factors are orthonormal both ways, so that Canon carries over to the padded "
+            "state with the centre given by get_extended_site_index",
+            "MPO.expect / MPO.__matmul__ (full contraction, zip-up): uninterpreted here",
+            "fidelity (MPS.overlap / inner), expectation of user operators beyond expect_batch, the normalisation "
+            "1/norm() * state in fill_results (scalar * keeps the centre: C10 MPS.__rmul__)",
+            "floating point",
+        ],
+        trusted=[
+            "the factor-list model of C10 (contracts/mps_canon.py) with its assumed contracts of torch.linalg.qr, "
+            "torch.tensordot, Tensor.view/.mT/.conj (A3/A4) and the contract of MPS.orthogonalize (proved in C10)",
+            "linear algebra (not mechanised): for a state whose factors left of site i are left-orthonormal and right "
+            "of it right-orthonormal, <op_i> = tr(op . sum_{a,b} conj(C)[a,.,b] C[a,.,b]) with C the centre tensor; "
+            "QR of C viewed (left*phys | right) and carrying R into the next factor gives the centre tensor at the "
+            "next site of another canonical gauge of the same state (mirror image to the left); <op_i op_j> is the "
+            "transfer of the environment started at i (identity to its left) through i+1..j closed with op at j and "
+            "a trace (identity to its right); the singular values of C viewed (left*phys | right) are the Schmidt "
+            "coefficients of the cut after site i",
+            "torch.linalg.svdvals, torch.special.entr, torch.sum, Tensor.trace/.item as documented (A4)",
+            "complex numbers stored by a reader are one abstract real each (dtype not tracked)",
+        ],
+    )
+
+
+# negative controls of the Engine-A part (thorough tier): (name, file, old text, new text)
+CONTROLS_A = [
+    ('expect_batch reads site q+1 before carrying the centre there', 'emu_mps/mps.py',
+     '                center_factor = torch.tensordot(\n                    r, self.factors[qubit_index + 1].to(r.device), dims=1\n                )',
+     '                center_factor = self.factors[qubit_index + 1]'),
+    ('expect_batch stores the left sweep at index q+1', 'emu_mps/mps.py',
+     '            result[qubit_index] = torch.tensordot(\n                single_qubit_operators.to(temp.device), temp, dims=2\n            )\n\n        return result',
+     '            result[qubit_index + 1] = torch.tensordot(\n                single_qubit_operators.to(temp.device), temp, dims=2\n            )\n\n        return result'),
+    ('correlation matrix orthogonalises on the wrong site', 'emu_mps/mps.py',
+     '            self.orthogonalize(left)\n            accumulator', '            self.orthogonalize(0)\n            accumulator'),
+    ('correlation matrix written transposed-and-shifted', 'emu_mps/mps.py',
+     'result[right, left] = result[left, right]', 'result[right - 1, left] = result[left, right]'),
+    ('entropy read at a bond while the centre is elsewhere', 'emu_mps/mps.py',
+     '        self.orthogonalize(mps_site)\n\n        # perform svd', '        self.orthogonalize(0)\n\n        # perform svd'),
+    ('entropy reads the singular values of site 0 instead of the centre', 'emu_mps/mps.py',
+     'matrix = self.factors[mps_site].flatten(end_dim=1)', 'matrix = self.factors[0].flatten(end_dim=1)'),
+    ('occupation measures level 0', 'emu_mps/custom_callback_implementations.py',
+     'op[0, 1, 1] = 1.0', 'op[0, 0, 0] = 1.0'),
+    ('variance forgets the square', 'emu_mps/custom_callback_implementations.py',
+     'en_var = h_2 - h**2', 'en_var = h_2 - h'),
+    ('extended centre index counts dark atoms too', 'emu_mps/utils.py',
+     '        if boolean_value:\n            index += 1\n            if index == desired_index:',
+     '        if True:\n            index += 1\n            if index == desired_index:'),
+]
+
+
+def _engine_b_child(tier, seed, repo_root):
+    try:
+        rc = _engineb.run(SPEC, tier, seed, repo_root)
+    except Exception:
+        import traceback
+        traceback.print_exc()
+        rc = 3
+    sys.stdout.flush()
+    sys.stderr.flush()
+    os._exit(rc)
 
 
 def run_custom(tier, seed, repo_root, relock=False):
-    return _engineb.run(SPEC, tier, seed, repo_root)
+    from pyvc import runner
+    t0 = time.time()
+    a_only = bool(os.environ.get("PYVC_ENGINE_A_ONLY"))
+    proc = None
+    if not a_only:
+        # Engine B in a forked child (it mostly waits for its driver), Engine A meanwhile in this process
+        sys.stdout.flush()
+        proc = mp.get_context("fork").Process(target=_engine_b_child, args=(tier, seed, repo_root))
+        proc.start()
+    rc_a, ev_a = runner.run_engine_a(ID, tier, seed, repo_root, relock)
+    rc_b = 0
+    if proc is not None:
+        proc.join()
+        rc_b = proc.exitcode if proc.exitcode in (0, 1, 2, 3) else 3
+    # one evidence file: Engine B's (level "other", bounded) with the Engine-A part under coverage["engine_a"]
+    evdir = os.environ.get("PYVC_EVIDENCE_DIR", os.path.join(runner.VERIF, "evidence"))
+    path = os.path.join(evdir, f"{ID}.json")
+    if proc is not None and ev_a is not None and os.path.exists(path) and not os.environ.get("PYVC_NO_EVIDENCE"):
+        with open(path) as f:
+            ev = json.load(f)
+        if ev.get("property_id") == ID and ev.get("seed") == int(seed) and ev.get("tier") == tier:
+            cov_a = dict(ev_a["coverage"])
+            cov_a["wall_s"] = ev_a["wall_s"]
+            cov_a["violations"] = ev_a["violations"]
+            cov_a["assumptions"] = ev_a.get("assumptions", [])
+            cov_a["what"] = ("Engine A (pyvc deductive verification, unbounded in sites and bond dimensions) of the "
+                             "emu-mps readers; counts below are proof obligations, separate from the bounded cases above")
+            ev["coverage"]["engine_a"] = cov_a
+            ev["violations"] = int(ev.get("violations", 0)) + int(ev_a["violations"])
+            ev["wall_s"] = round(time.time() - t0, 2)
+            with open(path, "w") as f:
+                json.dump(ev, f, indent=1, default=str)
+    for rc in (1, 3, 2):
+        if rc in (rc_a, rc_b):
+            return rc
+    return 0
